@@ -186,7 +186,23 @@ func (m *machine) create(n string, depth int) (*component_definition.Meta, error
 		}
 		steps := rapid.IntRange(0, 4).Draw(m.t, "steps")
 		for i := 0; i < steps; i++ {
-			switch rapid.IntRange(0, 3).Draw(m.t, "act") {
+			switch rapid.SampledFrom([]int{0, 0, 1, 1, 2, 2, 3, 3, 4}).Draw(m.t, "act") {
+			case 4:
+				// A lookup of the SAME name issued before the instance is exposed (e.g. from a before-instantiation
+				// callback) runs a complete nested creation, which publishes. The enclosing attempt cannot complete
+				// any more and fails: what the completed creation published must stay published.
+				if expose || s.published != nil {
+					continue
+				}
+				inner := newMeta(fmt.Sprintf("%s#%d-nested", n, s.attempts))
+				res, err := m.reg.GetSingletonOrCreateByFactory(n, container.FuncSingletonFactory(func() (*component_definition.Meta, error) { return inner, nil }))
+				m.log("nested complete create(%s) inside its own creation -> %p err=%v", n, res, err)
+				if err != nil || res != inner {
+					m.fail("nested complete creation of %q returned %p,%v want %p", n, res, err, inner)
+				}
+				s.published = inner
+				m.flags["completed-nested-creation-then-outer-failure"] = true
+				return nil, errBoom
 			case 0, 1:
 				x := rapid.SampledFrom(allNames).Draw(m.t, "dep")
 				if !expose && (m.st[x].creating) {
@@ -267,7 +283,9 @@ func (m *machine) create(n string, depth int) (*component_definition.Meta, error
 	}
 	s.creating = false
 	if err != nil {
-		s.failedOnce = true
+		if s.published == nil {
+			s.failedOnce = true
+		}
 		s.early, s.earlyAdded = nil, false
 		if res != nil {
 			m.fail("failed creation of %q returned a non-nil instance", n)
